@@ -14,7 +14,7 @@ pub fn obs_cfg() -> SemCfg {
     SemCfg {
         max_depth: 4,
         edge: false,
-        ill_typed_16: 0,
+        ill_typed_16: 1,
         observables: true,
         assignments: true,
     }
@@ -49,6 +49,16 @@ pub fn gen_obs_context(src: &mut Src, cfg: &SemCfg) -> SemCtx {
 
 pub fn gen_obs_program(src: &mut Src, cfg: &SemCfg, sc: &SemCtx) -> R {
     let mut stmts = gen_statements(src, cfg, sc, 4, false, false);
+    // statements that are nothing but a bare name bound to a logging context function
+    let funcs = sc.funcs_of(Ty::Any);
+    if !funcs.is_empty() {
+        let n = src.weighted(&[2, 2, 1]);
+        for _ in 0..n {
+            let pos = src.pick(stmts.len() + 1);
+            let name = src.choose(&funcs).0.clone();
+            stmts.insert(pos, R::Ref(name));
+        }
+    }
     // make sure there is something to observe: a final expression built around observables
     let t = *src.choose(&[Ty::Num, Ty::Bool, Ty::List, Ty::Num]);
     stmts.push(gen_expr(src, cfg, sc, t, 0));
